@@ -407,8 +407,9 @@ def C(suite, mode='full', kind='tie', only=None):
 PROPS = {
     'C01': dict(suites=[('tree', 1500, 60000), ('lex', 1500, 40000), ('serve', 3000, 60000)],
                 cmps=[C('tree', 'treebits', 'spec'), C('lex', 'full', 'tie', only=('parse',)), C('serve', 'bitsPA', 'spec')]),
-    'C02': dict(suites=[('intents', 6000, 200000), ('serve', 3000, 80000), ('tree', 500, 20000), ('acrh', 1000, 40000)],
-                cmps=[C('intents', 'firsttoken', 'spec'), C('serve', 'full', 'tie'), C('tree', 'treebits', 'spec'), C('acrh', 'full', 'spec')]),
+    # "every accepted configuration" includes the ones put in force by Reconfigure on a middleware whose handlers were wrapped earlier
+    'C02': dict(suites=[('intents', 6000, 200000), ('serve', 3000, 80000), ('tree', 500, 20000), ('acrh', 1000, 40000), ('history', 100, 3000)],
+                cmps=[C('intents', 'firsttoken', 'spec'), C('serve', 'full', 'tie'), C('tree', 'treebits', 'spec'), C('acrh', 'full', 'spec'), C('history', 'dec', 'spec')]),
     # C03 speaks of *allowed* origins: the ties of the two origin-decision components (tree, request-side lexer) belong to it
     # ... and "the configuration" is the one in force after any history of Reconfigure calls, also for handlers wrapped earlier
     'C03': dict(suites=[('serve', 6000, 150000), ('tree', 800, 30000), ('lex', 800, 30000), ('history', 120, 3000)],
@@ -422,7 +423,9 @@ PROPS = {
     'C07': dict(suites=[('schedule', 250, 6000), ('stress', 6, 20), ('history', 100, 2000, ('-adversarial',))],
                 cmps=[C('schedule', 'full', 'spec'), C('stress', 'full', 'spec'), C('history', 'dec', 'spec')]),
     'C08': dict(suites=[('history', 250, 6000)], cmps=[C('history', 'dec', 'spec')]),
-    'C09': dict(suites=[('history', 250, 6000), ('pairs09', 3000, 100000)], cmps=[C('history', 'dec', 'spec'), C('pairs09', 'full', 'spec')]),
+    # the diagnostics of every failing step, on the broad single-request generator as well as inside histories
+    'C09': dict(suites=[('history', 250, 6000), ('pairs09', 3000, 100000), ('serve', 4000, 100000)],
+                cmps=[C('history', 'dec', 'spec'), C('pairs09', 'full', 'spec'), C('serve', 'dec', 'spec')]),
     # second pairs10 run: wrapped handlers that overwrite in place whatever the middleware installed (a shared slice handed out
     # once poisons the Vary of every later response of the process)
     'C10': dict(suites=[('serve', 5000, 120000), ('pairs10', 5000, 150000), ('pairs10', 2500, 50000, ('-adversarial',))], cmps=[C('serve', 'vary', 'tie'), C('pairs10', 'full', 'spec')]),
@@ -432,7 +435,9 @@ PROPS = {
                 cmps=[C('history', 'dec', 'spec'), C('serve', 'dec', 'spec')]),
     'C13': dict(suites=[('lex', 4000, 150000)], cmps=[C('lex', 'full', 'tie', only=('pattern',)), C('lex', 'full', 'tie', only=('parse',))]),
     'C14': dict(suites=[('acrh', 3000, 150000), ('serve', 2000, 50000)], cmps=[C('acrh', 'full', 'spec'), C('serve', 'bitsH', 'spec')]),
-    'C15': dict(suites=[('twins', 4000, 150000), ('validate', 2000, 50000)], cmps=[C('twins', 'full', 'spec'), C('validate', 'full', 'tie')]),
+    # order independence of Origins is a property of the tree: its tie belongs to the check
+    'C15': dict(suites=[('twins', 4000, 150000), ('validate', 2000, 50000), ('tree', 800, 30000)],
+                cmps=[C('twins', 'full', 'spec'), C('validate', 'full', 'tie'), C('tree', 'treebits', 'spec')]),
     # "debug off" is a state of the documented state machine (C09): histories belong to the check
     'C16': dict(suites=[('serve', 8000, 200000), ('history', 150, 4000)], cmps=[C('serve', 'c16', 'tie'), C('history', 'c16h', 'tie')]),
     'C17': dict(suites=[('lex', 1000, 30000), ('tree', 500, 20000), ('acrh', 1000, 30000), ('validate', 1500, 50000),
